@@ -337,6 +337,265 @@ Proof.
         unfold rws'. apply resized_rows_older; lia.
 Qed.
 
+(* ------------------------------------------------------------------ RecordTensor.reconstrain *)
+Definition shifted (dim : Z) : Z := (dim + (if (0 <=? dim)%Z then 1 else 0))%Z.
+Lemma shifted_nonzero dim : shifted dim <> 0%Z.
+Proof. unfold shifted. destruct (Z.leb_spec 0 dim); lia. Qed.
+
+Definition with_cons (r : rec) (c : cons_t) : rec :=
+  mkRec Nm (rg r) (rstrict r) (rlive r) (rparam r) c (rdt r) (rdur r) (rincl r).
+
+Lemma storage_roundtrip (g : ring) : wf g -> rows_uniform g -> storage_of (data_of (st g)) (st g) = st g.
+Proof.
+  intros (Hn & _ & Hl) Hu. unfold rows_uniform in Hu. destruct (st g) as [| |d sh rws]; [reflexivity|reflexivity|].
+  cbn [data_of storage_of tshape tdt tflat].
+  destruct (Nat.eqb_spec (length rws) 0) as [E|E]; [lia|]. cbn [andb]. rewrite (chunks_concat _ _ Hu). reflexivity.
+Qed.
+Lemma of_shaped_set_cons (r : rec) c : rwf r ->
+  of_shaped r (set_cons (to_shaped r) ((0%Z, N (rg r)) :: c)) = with_cons r c.
+Proof.
+  intros (Hw & Hu & _). unfold Resize.of_shaped, set_cons, with_cons. cbn [scons sdat Resize.to_shaped lookup dict_del].
+  rewrite Z.eqb_refl. rewrite (storage_roundtrip _ Hw Hu). destruct r as [[n p s] ? ? ? ? ? ? ?]; reflexivity.
+Qed.
+Lemma dict_set_head n c d sz : d <> 0%Z -> dict_set ((0%Z, n) :: c) d sz = (0%Z, n) :: dict_set c d sz.
+Proof. intros H. cbn [dict_set]. destruct (Z.eqb_spec 0 d); [congruence|reflexivity]. Qed.
+Lemma dict_del_head n c d : d <> 0%Z -> dict_del ((0%Z, n) :: c) d = (0%Z, n) :: dict_del c d.
+Proof. intros H. cbn [dict_del]. destruct (Z.eqb_spec 0 d); [congruence|reflexivity]. Qed.
+
+Lemma upd_same {X} (l : list X) i (d : X) : upd l i (nth i l d) = l.
+Proof. revert i; induction l as [|h t IH]; intros [|i]; cbn; auto. f_equal. apply IH. Qed.
+Lemma resize_dim_same sh (fl : list A) k : resize_dim zeroA sh fl k (nth k sh 0) = fl.
+Proof. unfold resize_dim. rewrite Nat.ltb_irrefl. reflexivity. Qed.
+
+(* altering a trailing dimension of the storage = altering that dimension of every observation *)
+Lemma make_compatible_trailing (d : D) sh (rws : list (list A)) dim sz j :
+  uniform (nel sh) rws -> pyidx (S (length sh)) dim = S j -> j < length sh ->
+  make_compatible zeroA (mkT d (length rws :: sh) (concat rws)) dim sz =
+  mkT d (length rws :: upd sh j sz) (concat (map (fun row => resize_dim zeroA sh row j sz) rws)).
+Proof.
+  intros Hu Hp Hj. unfold make_compatible. change (ndim (mkT d (length rws :: sh) (concat rws))) with (S (length sh)).
+  rewrite Hp. cbn [tshape tdt tflat]. change (nth (S j) (length rws :: sh) 0) with (nth j sh 0).
+  change (upd (length rws :: sh) (S j) sz) with (length rws :: upd sh j sz).
+  rewrite (resize_dim_succ zeroA sh rws j sz Hj Hu).
+  destruct (Nat.ltb_spec sz (nth j sh 0)) as [H1|H1]; [reflexivity|].
+  destruct (Nat.ltb_spec (nth j sh 0) sz) as [H2|H2]; [reflexivity|].
+  assert (sz = nth j sh 0) as -> by lia. rewrite upd_same. f_equal.
+  rewrite (map_ext _ (fun row => row)) by (intros; apply resize_dim_same). rewrite map_id. reflexivity.
+Qed.
+
+Lemma in_keys_rcons (r : rec) d : d <> 0%Z -> In d (keys (all_cons r)) -> In d (keys (rcons r)).
+Proof. intros Hne [H|H]; [cbn in H; congruence|exact H]. Qed.
+
+(* the outcome of an alteration that resizes the data, in the record's own representation *)
+Lemma rrecon_edit (r1 : rec) (d : D) sh rws1 dim' sz : rwf r1 -> rvalid r1 = true -> no_alias0 r1 ->
+  st (rg r1) = SFull d sh rws1 -> dim' <> 0%Z -> In dim' (keys (rcons r1)) ->
+  exists j, pyidx (S (length sh)) dim' = S j /\ j < length sh /\
+    of_shaped r1 (mkShaped (rstrict r1) (rlive r1) (rparam r1) (dict_set (all_cons r1) dim' sz)
+                    (DTensor (make_compatible zeroA (mkT d (length rws1 :: sh) (concat rws1)) dim' sz))) =
+    mkRec Nm (mkRing (N (rg r1)) (ptr (rg r1))
+                (SFull d (upd sh j sz) (map (fun row => resize_dim zeroA sh row j sz) rws1)))
+          (rstrict r1) (rlive r1) (rparam r1) (dict_set (rcons r1) dim' sz) (rdt r1) (rdur r1) (rincl r1) /\
+    uniform (nel (upd sh j sz)) (map (fun row => resize_dim zeroA sh row j sz) rws1).
+Proof.
+  intros Hwf Hv Hna Es Hnz Hin. pose proof Hwf as (Hw & Hu & Hnd & Hp0).
+  unfold rows_uniform in Hu. rewrite Es in Hu. pose proof Hw as (Hn & _ & Hl). rewrite Es in Hl.
+  apply in_keys in Hin as (s0 & Hin).
+  (* the key addresses an existing trailing dimension *)
+  assert (Hrange : pyidx (S (length sh)) dim' < S (length sh)).
+  { pose proof (full_not_ignored _ _ _ _ Hw Es) as Hi. rewrite Es in Hi.
+    unfold Resize.rvalid in Hv. apply valid_spec in Hv. cbn [sdat Resize.to_shaped] in Hv. rewrite Es in Hv.
+    cbn [data_of] in Hv, Hi. destruct Hv as [Hv|[Hh _]]; [congruence|].
+    destruct (Hh dim' s0 (or_intror Hin)) as [R _]. apply pyidx_lt in R. exact R. }
+  assert (Hne0 : pyidx (S (length sh)) dim' <> 0) by (unfold no_alias0 in Hna; rewrite Es in Hna; eapply Hna; eauto).
+  destruct (pyidx (S (length sh)) dim') as [|j] eqn:Ep; [congruence|]. exists j.
+  split; [reflexivity|]. split; [lia|].
+  assert (Hu' : uniform (nel (upd sh j sz)) (map (fun row => resize_dim zeroA sh row j sz) rws1)).
+  { eapply uniform_map; [|exact Hu]. intros row Hrow. apply resize_dim_length; [lia|exact Hrow]. }
+  split; [|exact Hu'].
+  rewrite (make_compatible_trailing d sh rws1 dim' sz j Hu Ep ltac:(lia)).
+  unfold Resize.of_shaped. cbn [scons sdat storage_of tshape tdt tflat].
+  unfold Resize.all_cons. rewrite (dict_set_head _ _ _ _ Hnz). cbn [lookup dict_del]. rewrite Z.eqb_refl.
+  destruct (Nat.eqb_spec (length rws1) 0) as [E|E]; [lia|]. cbn [andb].
+  pose proof (chunks_concat _ _ Hu') as Hch. rewrite map_length in Hch. rewrite Hch. reflexivity.
+Qed.
+
+(* RecordTensor.reconstrain from a well-formed valid record: never breaks the record - the number of
+   slots and the temporal configuration are untouched, the record stays valid - and
+   * a refused call, an added and a removed constraint leave every observation as it was (the storage
+     is only re-aligned);
+   * an altered constraint resizes that dimension of every observation (tail kept / zeros prepended). *)
+Theorem rreconstrain_spec (r : rec) dim size : rwf r -> rvalid r = true -> no_alias0 r ->
+  (rstrict r = true \/
+   forall d sh rws, st (rg r) = SFull d sh rws -> pyidx (S (length sh)) (shifted dim) <> 0) ->
+  exists r' e, rreconstrain r dim size = (r', e) /\
+    rwf r' /\ rvalid r' = true /\ no_alias0 r' /\ N (rg r') = N (rg r) /\
+    rdt r' = rdt r /\ rdur r' = rdur r /\ rincl r' = rincl r /\
+    rstrict r' = rstrict r /\ rlive r' = rlive r /\ rparam r' = rparam r /\
+    (rcons r' = rcons r \/
+     (exists sz, rcons r' = dict_set (rcons r) (shifted dim) sz /\ e = None /\ size = Some (Z.of_nat sz)) \/
+     (rcons r' = dict_del (rcons r) (shifted dim) /\ size = None)) /\
+    (~ full (rg r) -> st (rg r') = st (rg r) /\ ptr (rg r') = ptr (rg r)) /\
+    (forall d sh rws, st (rg r) = SFull d sh rws ->
+       (exists rws', st (rg r') = SFull d sh rws' /\ forall k, at_ (rg r') k = at_ (rg r) k) \/
+       (exists j sz rws', e = None /\ size = Some (Z.of_nat sz) /\ In (shifted dim) (keys (rcons r)) /\
+          pyidx (S (length sh)) (shifted dim) = S j /\ j < length sh /\
+          rcons r' = dict_set (rcons r) (shifted dim) sz /\
+          st (rg r') = SFull d (upd sh j sz) rws' /\
+          forall k, at_ (rg r') k = resize_dim zeroA sh (at_ (rg r) k) j sz)).
+Proof.
+  intros Hwf Hv Hna Hnew. pose proof Hwf as (Hw & Hu & Hnd & Hp0).
+  pose proof (shifted_nonzero dim) as Hnz.
+  unfold Resize.rreconstrain. fold (shifted dim).
+  (* step 1: alignment *)
+  assert (Hal : exists r1, (if rignored r then inl r else align0 r) = inl r1 /\
+            rwf r1 /\ rvalid r1 = true /\ no_alias0 r1 /\ N (rg r1) = N (rg r) /\ rcons r1 = rcons r /\
+            rdt r1 = rdt r /\ rdur r1 = rdur r /\ rincl r1 = rincl r /\
+            rstrict r1 = rstrict r /\ rlive r1 = rlive r /\ rparam r1 = rparam r /\
+            (~ full (rg r) -> r1 = r) /\
+            (forall d sh rws, st (rg r) = SFull d sh rws ->
+               exists rws1, st (rg r1) = SFull d sh rws1 /\ ptr (rg r1) = 0 /\ forall k, at_ (rg r1) k = at_ (rg r) k)).
+  { destruct (rignored r) eqn:Eig.
+    - exists r. apply (rignored_iff r Hwf) in Eig. do 12 (split; [auto|]). split; [auto|].
+      intros d sh rws Es. exfalso. apply Eig. unfold full. rewrite Es. exact I.
+    - assert (Hf : full (rg r)).
+      { destruct (rignored_iff r Hwf) as [_ H2]. unfold full.
+        destruct (st (rg r)) eqn:Es; auto; exfalso;
+          (rewrite H2 in Eig; [discriminate|unfold full; rewrite Es; tauto]). }
+      unfold full in Hf. destruct (st (rg r)) as [| |d sh rws] eqn:Es; try contradiction. clear Hf.
+      destruct (align0_full r d sh rws Hwf Es) as (rws1 & Ha & Hl1 & Hu1 & Hat1). rewrite Ha.
+      eexists. split; [reflexivity|].
+      set (g1 := mkRing (N (rg r)) 0 (SFull d sh rws1)) in *.
+      assert (Hw1 : wf g1) by (unfold wf, g1; cbn [N ptr st]; destruct Hw as (Hn & _); auto).
+      split. { split; [exact Hw1|]. split; [exact Hu1|]. split; [exact Hnd|]. intros _. reflexivity. }
+      split. { rewrite (rvalid_full (set_rg Nm r g1) d sh rws1 eq_refl). rewrite (rvalid_full r d sh rws Es) in Hv.
+               rewrite <- Hv. apply ioc_shape. cbn [tshape]. destruct Hw as (_ & _ & Hl). rewrite Es in Hl. congruence. }
+      split. { unfold no_alias0 in *. cbn [Resize.rg Resize.set_rg g1 st]. rewrite Es in Hna. exact Hna. }
+      do 8 (split; [reflexivity|]). split.
+      + intros Hnf. exfalso. apply Hnf. unfold full. rewrite Es. exact I.
+      + intros d0 sh0 rws0 E0. injection E0 as <- <- <-. exists rws1. auto. }
+  destruct Hal as (r1 & Hr1 & Hwf1 & Hv1 & Hna1 & HN1 & Hc1 & Ht1 & Ht2 & Ht3 & Hf1 & Hf2 & Hf3 & Hsame1 & Hfull1).
+  rewrite Hr1. pose proof Hwf1 as (Hw1 & Hu1 & Hnd1 & Hp1).
+  (* step 2: the ShapedTensor call *)
+  destruct (reconstrain zeroA (to_shaped r1) (shifted dim) size) as [s' e] eqn:Er.
+  pose proof (reconstrain_inv zeroA (to_shaped r1) (shifted dim) size Hnd1 Hv1) as Hinv. rewrite Er in Hinv. cbn [fst] in Hinv.
+  destruct Hinv as (Hwfc' & Hval' & _).
+  exists (of_shaped r1 s'), e. split; [reflexivity|].
+  assert (Hall : all_cons r1 = (0%Z, N (rg r1)) :: rcons r1) by reflexivity.
+  (* the three outcomes that do not touch the data *)
+  assert (Hkeep : forall c'', s' = set_cons (to_shaped r1) ((0%Z, N (rg r1)) :: c'') ->
+            (forall dd ss, In (dd, ss) c'' -> In dd (keys (rcons r)) \/ dd = (shifted dim)) ->
+            rwf (with_cons r1 c'') /\ rvalid (with_cons r1 c'') = true /\ no_alias0 (with_cons r1 c'')).
+  { intros c'' -> Hsub. split; [|split].
+    - split; [exact Hw1|]. split; [exact Hu1|]. split; [exact Hwfc'|exact Hp1].
+    - exact Hval'.
+    - assert (Hwfk : rwf (with_cons r1 c'')) by (split; [exact Hw1|]; split; [exact Hu1|]; split; [exact Hwfc'|exact Hp1]).
+      destruct (rstrict r) eqn:Est.
+      + apply strict_no_alias0; [exact Hwfk|cbn [with_cons Resize.rstrict]; congruence|exact Hval'].
+      + destruct Hnew as [Hnew|Hnew]; [discriminate|].
+        unfold no_alias0 in *. cbn [with_cons Resize.rg Resize.rcons].
+        destruct (st (rg r1)) as [| |d1 sh1 rws1] eqn:Es1; [exact I|exact I|].
+        intros dd ss Hin. destruct (Hsub _ _ Hin) as [Hk| ->].
+        * apply in_keys in Hk as (s0 & Hk). rewrite <- Hc1 in Hk. exact (Hna1 _ _ Hk).
+        * destruct (st (rg r)) as [| |d0 sh0 rws0] eqn:Es0.
+          -- rewrite (Hsame1 ltac:(unfold full; rewrite Es0; tauto)) in Es1. congruence.
+          -- rewrite (Hsame1 ltac:(unfold full; rewrite Es0; tauto)) in Es1. congruence.
+          -- destruct (Hfull1 _ _ _ eq_refl) as (rws1' & E1 & _). try rewrite Es1 in E1. injection E1 as <- <- <-.
+             apply (Hnew _ _ _ eq_refl). }
+  assert (Hstsame : forall c'', (~ full (rg r) -> st (rg (with_cons r1 c'')) = st (rg r) /\ ptr (rg (with_cons r1 c'')) = ptr (rg r)) /\
+            (forall d sh rws, st (rg r) = SFull d sh rws ->
+               exists rws', st (rg (with_cons r1 c'')) = SFull d sh rws' /\ forall k, at_ (rg (with_cons r1 c'')) k = at_ (rg r) k)).
+  { intros c''. cbn [with_cons Resize.rg]. split.
+    - intros Hnf. rewrite (Hsame1 Hnf). auto.
+    - intros d sh rws Es. destruct (Hfull1 _ _ _ Es) as (rws1 & E1 & _ & Hat). eauto. }
+  destruct (reconstrain_cases zeroA _ _ _ _ _ Er)
+    as [->|[(zz & -> & Hzz & -> & ->)|[(-> & -> & Hin)|(t & zz & -> & Hzz & Hd & Hig & Hin & -> & ->)]]].
+  - (* nothing changed *)
+    replace (to_shaped r1) with (set_cons (to_shaped r1) ((0%Z, N (rg r1)) :: rcons r1)) by reflexivity.
+    rewrite (of_shaped_set_cons r1 _ Hwf1).
+    destruct (Hkeep (rcons r1) eq_refl) as (K1 & K2 & K3).
+    { intros dd ss Hin. left. rewrite <- Hc1. apply in_keys. eauto. }
+    destruct (Hstsame (rcons r1)) as [S1 S2].
+    split; [exact K1|]. split; [exact K2|]. split; [exact K3|]. cbn [with_cons Resize.rg Resize.rcons Resize.rdt Resize.rdur Resize.rincl Resize.rstrict Resize.rlive Resize.rparam].
+    do 7 (split; [assumption|]). split; [left; exact Hc1|]. split; [exact S1|].
+    intros d sh rws Es. left. exact (S2 _ _ _ Es).
+  - (* constraint added, or altered without touching the data *)
+    cbn [scons Resize.to_shaped]. rewrite Hall, (dict_set_head _ _ _ _ Hnz).
+    rewrite (of_shaped_set_cons r1 _ Hwf1).
+    destruct (Hkeep (dict_set (rcons r1) (shifted dim) (Z.to_nat zz))) as (K1 & K2 & K3).
+    { cbn [scons Resize.to_shaped]. rewrite Hall, (dict_set_head _ _ _ _ Hnz). reflexivity. }
+    { intros dd ss Hin. assert (Hndc : NoDup (keys (rcons r1))) by (rewrite Hall in Hnd1; cbn in Hnd1; inversion Hnd1; assumption).
+      apply (proj1 (in_dict_set _ _ _ _ _ Hndc)) in Hin as [[-> _]|[_ Hin]]; [auto|].
+      left. rewrite <- Hc1. apply in_keys. eauto. }
+    destruct (Hstsame (dict_set (rcons r1) (shifted dim) (Z.to_nat zz))) as [S1 S2].
+    split; [exact K1|]. split; [exact K2|]. split; [exact K3|]. cbn [with_cons Resize.rg Resize.rcons Resize.rdt Resize.rdur Resize.rincl Resize.rstrict Resize.rlive Resize.rparam].
+    do 7 (split; [assumption|]). split.
+    { right; left. exists (Z.to_nat zz). rewrite Hc1, Z2Nat.id by exact Hzz. auto. }
+    split; [exact S1|]. intros d sh rws Es. left. exact (S2 _ _ _ Es).
+  - (* constraint removed *)
+    cbn [scons Resize.to_shaped]. rewrite Hall, (dict_del_head _ _ _ Hnz).
+    rewrite (of_shaped_set_cons r1 _ Hwf1).
+    destruct (Hkeep (dict_del (rcons r1) (shifted dim))) as (K1 & K2 & K3).
+    { cbn [scons Resize.to_shaped]. rewrite Hall, (dict_del_head _ _ _ Hnz). reflexivity. }
+    { intros dd ss Hin'. left. rewrite <- Hc1. apply in_keys. exists ss. eapply in_dict_del; eauto. }
+    destruct (Hstsame (dict_del (rcons r1) (shifted dim))) as [S1 S2].
+    split; [exact K1|]. split; [exact K2|]. split; [exact K3|]. cbn [with_cons Resize.rg Resize.rcons Resize.rdt Resize.rdur Resize.rincl Resize.rstrict Resize.rlive Resize.rparam].
+    do 7 (split; [assumption|]). split.
+    { right; right. rewrite Hc1. auto. }
+    split; [exact S1|]. intros d sh rws Es. left. exact (S2 _ _ _ Es).
+  - (* constraint altered and the data resized along that dimension *)
+    cbn [sdat scons sstrict slive sparam Resize.to_shaped] in *.
+    destruct (st (rg r1)) as [| |d sh rws1] eqn:Es1; [discriminate|cbn in Hd, Hig; injection Hd as <-; cbn in Hig; discriminate|].
+    cbn [data_of] in Hd. injection Hd as <-.
+    assert (Hin1 : In (shifted dim) (keys (rcons r1))) by (apply in_keys_rcons; assumption).
+    destruct (rrecon_edit r1 d sh rws1 (shifted dim) (Z.to_nat zz) Hwf1 Hv1 Hna1 Es1 Hnz Hin1)
+      as (j & Hpj & Hj & Hof & Hu').
+    rewrite Hof.
+    set (rws' := map (fun row => resize_dim zeroA sh row j (Z.to_nat zz)) rws1) in *.
+    set (g' := mkRing (N (rg r1)) (ptr (rg r1)) (SFull d (upd sh j (Z.to_nat zz)) rws')).
+    pose proof Hw1 as (Hn1 & Hptr1 & Hl1). rewrite Es1 in Hl1.
+    assert (Hlen' : length rws' = N (rg r1)) by (unfold rws'; rewrite map_length; exact Hl1).
+    assert (Hw' : wf g') by (unfold wf, g'; cbn [N ptr st]; auto).
+    (* the state before the call was initialised *)
+    assert (Hfr : exists rws, st (rg r) = SFull d sh rws /\ forall k, at_ (rg r1) k = at_ (rg r) k).
+    { destruct (st (rg r)) as [| |d0 sh0 rws0] eqn:Es0.
+      - rewrite (Hsame1 ltac:(unfold full; rewrite Es0; tauto)) in Es1. congruence.
+      - rewrite (Hsame1 ltac:(unfold full; rewrite Es0; tauto)) in Es1. congruence.
+      - destruct (Hfull1 _ _ _ eq_refl) as (rws1' & E1 & _ & Hat). try rewrite Es1 in E1. injection E1 as <- <- <-. eauto. }
+    destruct Hfr as (rws & Es & Hat1).
+    assert (Hwfk : rwf (mkRec Nm g' (rstrict r1) (rlive r1) (rparam r1) (dict_set (rcons r1) (shifted dim) (Z.to_nat zz))
+                          (rdt r1) (rdur r1) (rincl r1))).
+    { split; [exact Hw'|]. split; [exact Hu'|]. split.
+      - unfold wfc in Hwfc'. cbn [scons] in Hwfc'. unfold Resize.all_cons in *.
+        rewrite (dict_set_head _ _ _ _ Hnz) in Hwfc'. exact Hwfc'.
+      - intros Hnf. exfalso. apply Hnf. exact I. }
+    assert (Hvk : rvalid (mkRec Nm g' (rstrict r1) (rlive r1) (rparam r1) (dict_set (rcons r1) (shifted dim) (Z.to_nat zz))
+                          (rdt r1) (rdur r1) (rincl r1)) = true).
+    { match goal with |- Resize.rvalid _ ?x = true => rewrite (rvalid_full x d (upd sh j (Z.to_nat zz)) rws' eq_refl) end.
+      unfold valid in Hval'. cbn [sdat scons sstrict] in Hval'. rewrite <- Hval'.
+      unfold Resize.all_cons. cbn [Resize.rg Resize.rcons Resize.rstrict N g'].
+      rewrite (dict_set_head _ _ _ _ Hnz). apply ioc_shape.
+      rewrite (make_compatible_trailing d sh rws1 _ _ j) by (try exact Hpj; try lia; unfold rows_uniform in Hu1; rewrite Es1 in Hu1; exact Hu1).
+      cbn [tshape]. congruence. }
+    split; [exact Hwfk|]. split; [exact Hvk|]. split.
+    { destruct (rstrict r) eqn:Est.
+      - apply strict_no_alias0; [exact Hwfk|cbn [Resize.rstrict]; congruence|exact Hvk].
+      - unfold no_alias0 in *. cbn [Resize.rg Resize.rcons st g']. rewrite Es1 in Hna1.
+        assert (Hndc : NoDup (keys (rcons r1))) by (rewrite Hall in Hnd1; cbn in Hnd1; inversion Hnd1; assumption).
+        intros dd ss Hin'. rewrite upd_length'.
+        apply (proj1 (in_dict_set _ _ _ _ _ Hndc)) in Hin' as [[-> _]|[_ Hin']]; [lia|eauto]. }
+    cbn [Resize.rg Resize.rcons Resize.rdt Resize.rdur Resize.rincl Resize.rstrict Resize.rlive Resize.rparam N g'].
+    do 7 (split; [assumption|]). split.
+    { right; left. exists (Z.to_nat zz). rewrite Hc1, Z2Nat.id by exact Hzz. auto. }
+    split. { intros Hnf. exfalso. apply Hnf. unfold full. rewrite Es. exact I. }
+    intros d0 sh0 rws0 E0. rewrite Es in E0. injection E0 as <- <- <-. right.
+    exists j, (Z.to_nat zz), rws'. rewrite Z2Nat.id by exact Hzz. rewrite <- Hc1.
+    do 5 (split; [auto|]). split; [reflexivity|]. split; [reflexivity|].
+    intros k. rewrite <- Hat1. unfold at_, rows, idx. unfold g'. cbn [N ptr st]. rewrite Es1. unfold rws'.
+    assert (Hi : unwind (ptr (rg r1)) k (N (rg r1)) < length rws1) by (rewrite Hl1; unfold unwind, _unwind_ptr; lia).
+    rewrite (nth_indep _ [] (resize_dim zeroA sh [] j (Z.to_nat zz))) by (rewrite map_length; exact Hi).
+    apply (map_nth (fun row => resize_dim zeroA sh row j (Z.to_nat zz))).
+Qed.
+
 (* ------------------------------------------------------------------ the three temporal setters *)
 Inductive setter := SetDt (v : T Nm) | SetDur (v : T Nm) | SetIncl (b : bool).
 Definition apply_setter (r : rec) (s : setter) : rec * option xerr :=
